@@ -46,6 +46,11 @@ def handle (fs : List String) : String :=
           if per.length != s.length then "bad-op" else
           String.intercalate "," ((split s xs per).map toHex)
       | _, _, _, _ => "bad-op"
+  -- which share column a coefficient byte (position relpos in the coefficient region) belongs to: in the model
+  -- the polynomials of different secret bytes use disjoint coefficient chunks of length t-1
+  | ["influence", len, thr, relpos] => match len.toNat?, thr.toNat?, relpos.toNat? with
+      | some l, some t, some p => if t < 2 || p ≥ l * (t - 1) then "bad-op" else "cols:" ++ toString (p / (t - 1))
+      | _, _, _ => "bad-op"
   | ["combine", parts] =>
       let ps := if parts = "" then [] else (parts.splitOn ",").map parseHex?
       if ps.any Option.isNone then "bad-op" else
